@@ -179,7 +179,6 @@ impl Compiler {
             assert(self.log@[k].end == pc);
             assert(n0 + 1 < pc);
             assert(code[n0] == opcode_byte(OpCode::Null));
-            assert(same_loops(*self, *old(self)));
             assert(self.log@[k + 2].what == LogWhat::Stops(stops));
             assert forall|j: int| 0 <= j < stops.len() implies n0 + 1 <= #[trigger] stops[j] && stops[j] + 3 <= code.len() - 3 && code[stops[j] as int] == byte_jump() && u16_at(code, stops[j] as int + 1) == code.len() by {
                 assert(stop_final(*self, n0, pc, len_final, stops[j] as int));
